@@ -173,9 +173,40 @@ def handle (payload impl : String) : String × String :=
           let badEq := parsed.find? (fun (v, e) => match e with
             | .equal id => id < nvars && v < nvars && !sameClass v id
             | _ => false)
+          -- resolved type text per variable, to recognise contradictory classes
+          let typeOf := fun (v : Nat) =>
+            match (impl.splitOn "types=[").drop 1 with
+            | rest :: _ =>
+              ((((rest.splitOn ";").map (fun (x : String) => x.splitOn ":")).find? (fun (p : List String) => p.head? == some (toString v))).map
+                (fun (p : List String) => ":".intercalate (p.drop 1))).getD ""
+            | [] => ""
+          let isConflict := fun (v : Nat) => (typeOf v).startsWith "conflict"
+          -- two constructed types that met (same class, evidence not contradictory) must have
+          -- their corresponding components unified
+          let comps : List (Nat × Nat × String) := parsed.foldl (fun acc (p : Nat × TE) =>
+            acc ++ parsed.filterMap (fun (q : Nat × TE) =>
+              if !(sameClass p.1 q.1) || isConflict p.1 then none else
+              match p.2, q.2 with
+              | .mapping k1 v1, .mapping k2 v2 =>
+                if !(sameClass k1 k2) then some (k1, k2, "mapping keys")
+                else if !(sameClass v1 v2) then some (v1, v2, "mapping values") else none
+              | .dynamicArray a, .dynamicArray b => if !(sameClass a b) then some (a, b, "dynamic array elements") else none
+              | .fixedArray a la, .fixedArray b lb =>
+                if la == lb && !(sameClass a b) then some (a, b, "fixed array elements") else none
+              | _, _ => none)) []
           match badEq with
           | some (v, _) => s!"FAIL C14-declared-equal-not-unified:{v}"
-          | none => "ok"
+          | none =>
+            match comps.find? (fun (a, b, _) => a < nvars && b < nvars) with
+            | some (a, b, what) =>
+              -- dynamic bytes in the same class absorb a dynamic array before it meets the other
+              -- one (the D11 region of MergeLaws.Bad: bytes, dyn x, dyn y with x ≠ y)
+              let absorbed := what == "dynamic array elements" &&
+                parsed.any (fun (p : Nat × TE) => p.2 == .bytes &&
+                  parsed.any (fun (q : Nat × TE) => (match q.2 with | .dynamicArray e => e == a || e == b | _ => false) && sameClass p.1 q.1))
+              if absorbed then s!"FAIL C14-components-absorbed-by-bytes:{what} {a} and {b}"
+              else s!"FAIL C14-components-not-unified:{what} {a} and {b}"
+            | none => "ok"
       (model, verdict)
     | _, _ => ("bad-request", "ok")
   | _ => ("bad-request", "ok")
